@@ -8,7 +8,8 @@ EXTENDS IPFilter, SequencesExt, Json
 CONSTANTS BitWidth,   \* bits of an address in this model
           MaxAllow,   \* at most this many allow entries
           MaxBlock,   \* at most this many block entries
-          ChainMode   \* TRUE: also range over a second filter (chain = conjunction)
+          ChainMode,  \* TRUE: also range over a second filter (chain = conjunction)
+          PairMode    \* TRUE: the focused universe PairFilters instead of all small filters
 
 Fams == {4, 6}
 BitPrefixes == UNION {[1..k -> {0, 1}] : k \in 0..BitWidth}
@@ -22,7 +23,23 @@ NetSeqsOrd(n) ==
     {<<>>} \cup (IF n >= 1 THEN {<<NetList[i]>> : i \in 1..NN} ELSE {})
            \cup (IF n >= 2 THEN UNION {{<<NetList[i], NetList[j]>> : j \in (i + 1)..NN} : i \in 1..NN} ELSE {})
 
-Filters == [on : {TRUE}, allow : NetSeqsOrd(MaxAllow), block : NetSeqsOrd(MaxBlock), dflt : BOOLEAN]
+AllFilters == [on : {TRUE}, allow : NetSeqsOrd(MaxAllow), block : NetSeqsOrd(MaxBlock), dflt : BOOLEAN]
+
+(* Focused universe (meant for BitWidth >= 3): one list holds two different nets of the same      *)
+(* family and the same size, in either order - siblings under one supernet (01x, 00x),             *)
+(* numerically adjacent ones that are not siblings (01x, 10x: "10.0.1.0/24, 10.0.2.0/24"), and     *)
+(* nets further apart - at every prefix length including full-length single addresses; the other  *)
+(* list holds at most one net of that family.  A list is a set of prefixes: membership in it is    *)
+(* membership in one of its entries, whatever their neighbours are ("standard prefix semantics"), *)
+(* so an implementation that aggregates, sorts or de-duplicates its entries must still decide     *)
+(* every address of the family as Denied says.                                                     *)
+SameSizePairs == {p \in Nets \X Nets : p[1] # p[2] /\ p[1].fam = p[2].fam /\ Len(p[1].bits) = Len(p[2].bits)}
+UpToOne(fam) == {<<>>} \cup {<<n>> : n \in {x \in Nets : x.fam = fam}}
+PairFilter(p, o, side, d) == IF side THEN [on |-> TRUE, allow |-> p, block |-> o, dflt |-> d]
+                                     ELSE [on |-> TRUE, allow |-> o, block |-> p, dflt |-> d]
+(* as a predicate with the assignment inside the quantifiers: TLC enumerates the initial states   *)
+(* without materialising (and sorting) the set of filters                                          *)
+IsPairFilter(x) == \E p \in SameSizePairs, side \in BOOLEAN, d \in BOOLEAN : \E o \in UpToOne(p[1].fam) : x = PairFilter(p, o, side, d)
 
 (* second filter of a chain: absent, block one half, allow-list one quarter *)
 GFilters ==
@@ -36,7 +53,10 @@ GFilters ==
 VARIABLES f, g, a, out
 vars == <<f, g, a, out>>
 
-Init == /\ f \in Filters /\ g \in GFilters /\ a \in Addrs
+Init == /\ IF PairMode THEN IsPairFilter(f) ELSE f \in AllFilters
+        /\ g \in GFilters
+        /\ a \in IF PairMode THEN {x \in Addrs : x.fam = (f.allow \o f.block)[1].fam}     \* the other family: see the general universe
+                            ELSE Addrs
         /\ out = ToJson([f |-> f, a |-> a, allow |-> ~Denied(f, a)])
 Next == UNCHANGED vars
 Spec == Init /\ [][Next]_vars
